@@ -255,16 +255,28 @@ func genCase(rt *rapid.T) Case {
 	// activations of the same code are then under way at the same time (and it is called more than once)
 	walker := rapid.IntRange(0, 3).Draw(rt, "walker") == 0
 	if walker {
-		wc := ctx{blocks: []string{"wb"}, kinds: []string{"block"}, inFn: true, nvar: "n"}
+		// the block the walker's exits aim at: an explicit (block wb ...) or the function's own name
+		ownBlock := rapid.IntRange(0, 2).Draw(rt, "walker-own-block")
+		bname := "wb"
+		if ownBlock > 0 {
+			bname = "zw"
+		}
+		wc := ctx{blocks: []string{bname}, kinds: []string{"block"}, inFn: true, nvar: "n"}
 		body := g.body(wc.with("unwind-protect"), 2)
 		if rapid.Bool().Draw(rt, "walker-return") {
-			body = append(body, r.L(sym("return-from"), sym("wb"), g.mv(r.L(sym("+"), sym("n"), int64(50)))))
+			body = append(body, r.L(sym("return-from"), sym(bname), g.mv(r.L(sym("+"), sym("n"), int64(50)))))
 		}
-		def := r.L(sym("defun"), sym("zw"), r.L(sym("n")),
-			r.L(sym("block"), sym("wb"),
-				r.L(append([]r.Val{sym("unwind-protect"), r.L(append([]r.Val{sym("progn")}, body...)...), g.m()},
-					r.L(sym("if"), r.L(sym("<"), int64(0), sym("n")), r.L(sym("zw"), r.L(sym("-"), sym("n"), int64(1)))))...),
-				g.mv(sym("n"))))
+		up := r.L(append([]r.Val{sym("unwind-protect"), r.L(append([]r.Val{sym("progn")}, body...)...), g.m()},
+			r.L(sym("if"), r.L(sym("<"), int64(0), sym("n")), r.L(sym("zw"), r.L(sym("-"), sym("n"), int64(1)))))...)
+		def := r.L(sym("defun"), sym("zw"), r.L(sym("n")), r.L(sym("block"), sym("wb"), up, g.mv(sym("n"))))
+		switch ownBlock {
+		case 1:
+			// the block is the one the function has by its name, the body is that one form (no explicit block)
+			def = r.L(sym("defun"), sym("zw"), r.L(sym("n")), up)
+		case 2:
+			// the same with a second body form
+			def = r.L(sym("defun"), sym("zw"), r.L(sym("n")), up, g.mv(sym("n")))
+		}
 		top = append(top, r.Print(def))
 	}
 	forms := g.body(c, 1)
